@@ -187,7 +187,7 @@ def decode(m, case=None):
     b = m.index(-4)
     return {'out': m[0], 'c03_args_bad': m[1], 'c03_result_bad': m[2], 'c04_call_ok': m[3], 'c04_result_ok': m[4],
             'c05_positional': m[5], 'no_iter': m[6], 'no_iter_consumed': m[7], 'result_intact': m[8], 'res_drained': m[9],
-            'c03_positional_bad': m[10], 'journal': decode_journal(m[a + 1:b]), 'twin_out': m[b + 1],
+            'c03_positional_bad': m[10], 'shk': m[11], 'journal': decode_journal(m[a + 1:b]), 'twin_out': m[b + 1],
             'twin_journal': decode_journal(m[b + 2:])}
 
 
@@ -939,10 +939,6 @@ MATCHERS = {
     'oneshot_iterator_under_iterable': lambda c, fn: (c.get('_mflags') or {}).get('no_iter_consumed') == 0 and iter_under_iterable(c, fn),
     'oneshot_iterator_nested': lambda c, fn: (c.get('_mflags') or {}).get('no_iter_consumed') == 0 and not iter_under_iterable(c, fn),
     'oneshot_iterator_in_result': lambda c, fn: (c.get('_mflags') or {}).get('result_intact') == 0,
-    # a defaulted named parameter (not the receiver) that the call fills positionally
-    'defaulted_param_filled_positionally': lambda c, fn: any(p['default'] is not None and j < len(c['args']) for j, p in enumerate(lead_params(c, fn))),
-    # next() after the generator was started, where the send type does not accept None
-    'generator_next_with_send_type': lambda c, fn: bool((c.get('_mflags') or {}).get('next_rejected')),
     'self_passed_by_keyword': lambda c, fn: bool(c.get('self_kw')),
     'classmethod_of_pedantic_class_via_subclass': lambda c, fn: c['style'] == 'class_deco' and c['mkind'] == 'class'
                                                                and c.get('via') in ('subclass', 'sub_instance'),
@@ -959,16 +955,12 @@ MATCHERS = {
                                                         for p in fn['params'] if p['kind'] in ('pos', 'posonly', 'kwonly') and p['name'] != 0)),
     'classmethod_decorated_directly': lambda c, fn: c['style'] == 'method_direct' and c['mkind'] == 'class' and c['mode'] == 'pedantic',
     # a receiver the first checking pass does not count (no first parameter called self) in front of *args
-    'receiver_checked_against_varargs': lambda c, fn: bool(call_parts(c)[0]) and has_varpos(fn) and fn['first_arg'] != 0,
-    # a defaulted parameter declared before *args that the caller passes positionally
-    'defaulted_param_before_varargs_passed_positionally': lambda c, fn: has_varpos(fn) and any(
-        p['default'] is not None and j < len(c['args'])
-        for j, p in enumerate([q for q in fn['params'] if q['kind'] in ('pos', 'posonly') and q['name'] != 0])),
+    'receiver_checked_against_varargs': lambda c, fn: bool(call_parts(c)[0]) and fn['first_arg'] != 0
+                                                      and (has_varpos(fn) or (c.get('_mflags') or {}).get('shk') == 0),
     # static / class methods are called with the keyword arguments only (_get_return_value): positional values for *args are lost
     'star_elements_dropped_for_static_or_class_method': lambda c, fn: has_varpos(fn) and len(c['args']) > 0
                                                                       and (fn['text']['staticmethod'] or fn['bound'] is not None),
     'generator_resumed_after_exhaustion': lambda c, fn: resumed_after_exhaustion(c),
-    'posonly_name_used_as_keyword': lambda c, fn: any(p['kind'] == 'posonly' and p['name'] in [k for k, _ in c['kwargs']] for p in fn['params']),
     'throw_answered_by_generator': lambda c, fn: bool(c.get('gen')) and c.get('on_throw', 'propagate') != 'propagate'
                                                  and any(o[0] == 'throw' for o in c.get('ops', [])),
     'pedantic_text_in_method_of_pedantic_class': lambda c, fn: c['style'] == 'class_deco' and fn['text']['pedantic'],
@@ -982,7 +974,7 @@ def mflags(case, m):
     if case.get('gen'):
         return {'next_rejected': any(o[0] == 'next' and initialized_before(case, idx) and not flag(m.get('ok_sent', []), idx, 1)
                                      for idx, o in enumerate(case.get('ops', [])))}
-    return {'no_iter_consumed': m.get('no_iter_consumed'), 'result_intact': m.get('result_intact')}
+    return {'no_iter_consumed': m.get('no_iter_consumed'), 'result_intact': m.get('result_intact'), 'shk': m.get('shk')}
 
 
 def lead_params(c, fn):
